@@ -4,6 +4,7 @@ with meta.json extended by what the main session confirmed and which checks caug
 import json, os, re, shutil, sys
 pid, caught, note = sys.argv[1], sys.argv[2], sys.argv[3]
 src = '/tmp/mut-%s' % pid
+pid = pid.rstrip('bcd')      # second-round scratch directories are /tmp/mut-<pid>b
 n = 1
 while os.path.exists('/verif/seeded/%s-m%d' % (pid, n)):
     n += 1
